@@ -15,7 +15,8 @@
   `commuteGuard` (`commute_succeeds_replace`: one step inside a node the other does not touch; false
   without a guard, `commute_needs_guard`), and likewise for a replace step outside `[from, to]` of a
   replace-around step (`commute_succeeds_around`) and for two replace-around steps one after the other
-  (`commute_succeeds_around_around`).  A step strictly inside the kept gap: guard `gapGuard` found and tied to the
+  (`commute_succeeds_around_around`), and for a node-mark / attr step before a replace-around step
+  (`commute_succeeds_around_nodeStep_before_partial`).  A step strictly inside the kept gap: guard `gapGuard` found and tied to the
   real code, theorem `commute_succeeds_around_gap` stated, not proved (last section: what is missing).
   Helper lemmas: Proofs/Commute.lean, Proofs/CommuteMarkup.lean, Proofs/CommuteSuccess.lean,
   Proofs/CommuteSuccessR.lean, Proofs/Lvl.lean; for replace-around steps Proofs/CommuteAround.lean,
@@ -1231,6 +1232,105 @@ theorem commute_succeeds_around_around (S : Schema) (d da db : Node)
     exact around_again_same S d db da dab f t gf gt ins f' t' sl I'.toks st gap I hn hnb hgo hsep
       (by omega) hl' hdb ha hgap ho1 ho2 hinst hfr
 
+/-! ### both rebased orders apply — replace-around step vs. node-mark / attr step
+
+A node-markup step *is* the replace of the addressed token by the re-created node (`nodeStep_full`), so
+`commute_succeeds_replace` applies to it and the filled replace of the replace-around step; the rebased node step
+finds the same token (hence re-creates the same node, `nodeAtKids_of_head`), the rebased replace-around step is the
+same step again (`around_again_shifted`).
+
+FULL STATEMENTS (not proved):
+    commute_succeeds_around_nodeStep : the same for `pos + 1 < f ∨ (gf < pos ∧ pos + 1 < gt) ∨ t < pos`, without `hg`
+      for attr / remove-node-mark steps (they change no mark set a parent could refuse; add-node-mark needs that the
+      parent of the addressed node keeps its type, finding C17-parent-retyped);
+    commute_succeeds_around_removeMark, commute_succeeds_around_addMark_partial (under `ParentStable`).
+Proved: the node step strictly before `from` (its token may be an ancestor's open token), under `commuteGuard`
+(not forced for attr steps: a guard-free proof needs "a replace does not read the markup of tokens outside its range
+except through `validContent` of rebuilt parents", which does not exist yet).  Missing for the rest:
+* `t < pos`: the same proof with `around_again_same` and `nodeAtKids_of_head` at the shifted position — not done
+  for lack of time, nothing new needed;
+* inside the gap: as for `commute_succeeds_around_gap` below (the filled slice differs in one token's markup);
+* mark steps: their slice may be open, and `da.slice f2' t2'` has to be shown to carry the same markup on its open
+  spine as `d.slice f2 t2` (`slice_again` covers closed slices only); alternatively `addMark_applies` /
+  `removeMark_applies` on `da` (valid document, `TextLoop`) for the mark step and `replaceKids_map`-style re-validation
+  for the replace-around step on `db`. -/
+
+/-- **a node-mark / attr step on a token strictly before a replace-around step's range, one of the two inside a node
+    the other one does not touch**: neither rebased step is dropped (both unchanged), both orders apply, and they
+    give the same document -/
+theorem commute_succeeds_around_nodeStep_before_partial (S : Schema) (d da db : Node) (f t gf gt ins : Nat)
+    (sl : Slice) (st : Bool) (pos : Nat) (N : Step) (hN : NodeStepAt pos N)
+    (hn : fnorm d.kids = true) (hsn : fnorm sl.content = true)
+    (hs : AroundShape f t gf gt sl ins) (hsep : pos + 1 < f)
+    (ha : S.apply (.replaceAround f t gf gt sl ins st) d = .ok da) (hb : S.apply N d = .ok db)
+    (hg : commuteGuard d.kids pos (pos + 1) ⟨[], 0, 0⟩ f t sl = true) :
+    ∃ dab, N.map (Step.replaceAround f t gf gt sl ins st).getMap = some N ∧
+      (Step.replaceAround f t gf gt sl ins st).map N.getMap = some (.replaceAround f t gf gt sl ins st) ∧
+      S.apply N da = .ok dab ∧ S.apply (.replaceAround f t gf gt sl ins st) db = .ok dab := by
+  have hsp : N.posSpan = some (pos, pos) := by
+    rcases hN with ⟨m, rfl⟩ | ⟨m, rfl⟩ | ⟨n, v, rfl⟩ <;> rfl
+  have hto : N.touch = some (pos, pos + 1) := by
+    rcases hN with ⟨m, rfl⟩ | ⟨m, rfl⟩ | ⟨n, v, rfl⟩ <;> rfl
+  obtain ⟨n, u, hnat, hu, hfrN⟩ := nodeStep_full S d db pos N hN hb
+  obtain ⟨_, _, htok, _, _, _, _⟩ := nodeRepl_toks S d db n u pos _ _ hnat hu hfrN
+  obtain ⟨hsz, hun⟩ := nodeSlice_facts S n u _ _ hu
+  have hnt : n.isText = false := by
+    cases n with
+    | text s m => simp [Schema.recreate] at hu
+    | leaf => rfl
+    | elem => rfl
+  have hb2 : S.apply (.replace pos (pos + 1) ⟨[u], 0, if n.isLeaf then 0 else 1⟩ false) d = .ok db := by
+    simpa [Schema.apply] using hfrN
+  obtain ⟨gap, I, hgap, ho1, ho2, hinst, ha2, hio, hin, hisz, hl⟩ :=
+    around_as_replace S d da f t gf gt ins sl st hn hsn hs ha
+  have hgo := hs.2.2
+  have hg' : commuteGuard d.kids pos (pos + 1) ⟨[u], 0, if n.isLeaf then 0 else 1⟩ f t I = true := by
+    rw [commuteGuard_openStart _ _ _ _ _ ⟨[], 0, 0⟩ sl ⟨[u], 0, if n.isLeaf then 0 else 1⟩ I rfl hio]; exact hg
+  obtain ⟨a', b', dab, hb', ha', hab, hba⟩ := commute_succeeds_replace S d db da pos (pos + 1) f t _ I
+    false false hn hun hin hsep hb2 ha2 hg'
+  obtain ⟨hdb, _, hlp, hlenN⟩ := apply_replace_splice S d db pos (pos + 1) _ false hb2
+  obtain ⟨hda, _, _, _⟩ := apply_replace_splice S d da f t I false ha2
+  obtain ⟨r1, r2⟩ := rebase_separated_after pos (pos + 1) f t ⟨[u], 0, if n.isLeaf then 0 else 1⟩ I false false
+    (by omega) (by omega) hsep (by omega)
+  rw [r1] at hb'; rw [r2] at ha'
+  simp only [Option.some.injEq] at hb' ha'
+  subst hb' ha'
+  have hnb := apply_replace_norm S d db pos (pos + 1) _ false hn hun hb2
+  have hna := apply_replace_norm S d da f t I false hn hin ha2
+  refine ⟨dab, ?_, ?_, ?_, ?_⟩
+  · exact (rebase_markup_not_dropped_around N pos pos hsp (Nat.le_refl _) f t gf gt sl ins st hgo).1 (by omega)
+  · rw [getMap_of_touch N pos (pos + 1) hto]
+    exact replaceAround_map_empty f t gf gt sl ins st ⟨hgo.1, hgo.2.2⟩
+  · -- the node step on `da`: the addressed token is still there
+    have hfr := apply_replace_fromReplace S da dab _ _ _ false hba
+    have htok' : (ftoks da.kids)[pos]? = some n.headTok := by
+      rw [hda]; unfold splice
+      rw [splice_getElem? _ _ _ _ _ (by omega), if_pos (by omega)]
+      have hp : pos < (ftoks d.kids).length := by omega
+      rw [List.getElem?_eq_getElem hp]
+      rw [List.getD_eq_getElem?_getD, List.getElem?_eq_getElem hp] at htok
+      simpa using htok
+    obtain ⟨n', hnat', hhd, hnt'⟩ := nodeAtKids_of_head da.kids pos n.headTok (fnormKids_of_fnorm hna) htok'
+      (by cases n <;> simp [Node.headTok, Node.isText] at hnt ⊢)
+      (by intro c m; cases n <;> simp [Node.headTok, Node.isText] at hnt ⊢)
+    obtain ⟨e1, e2, e3, e4⟩ := recreate_congr_head S n n' (stepAttrs N n.attrs) (stepMarks S N n.marks) hhd hnt hnt'
+    have hu' : S.recreate n' (stepAttrs N n'.attrs) (stepMarks S N n'.marks) = .ok u := by
+      rw [e2, e3, e1]; exact hu
+    rw [nodeStep_apply_of S da n' u pos N hN hnat' hu', e4]
+    exact hfr
+  · have hfr := apply_replace_fromReplace S db dab _ _ I false hab
+    have hl1 : ((Slice.mk [u] 0 (if n.isLeaf then 0 else 1)).toks.length) = 1 := by omega
+    have n1 : ∀ p : Nat, pos + 1 < p →
+        ((p : Int) + (Slice.mk [u] 0 (if n.isLeaf then 0 else 1)).size - ((pos + 1 : Nat) - (pos : Int))).toNat = p := by
+      intro p hp; omega
+    rw [n1 f hsep, n1 t (by omega)] at hfr
+    have := around_again_shifted S d db da dab f t gf gt ins pos (pos + 1) sl _ st gap I hn hnb hgo hsep
+      (by omega) hl hdb ha hgap ho1 ho2 hinst
+      (by rw [hl1, show pos + 1 + (f - (pos + 1)) = f by omega, show pos + 1 + (t - (pos + 1)) = t by omega]; exact hfr)
+    rw [hl1] at this
+    rwa [show pos + 1 + (f - (pos + 1)) = f by omega, show pos + 1 + (t - (pos + 1)) = t by omega,
+      show pos + 1 + (gf - (pos + 1)) = gf by omega, show pos + 1 + (gt - (pos + 1)) = gt by omega] at this
+
 /-! Non-vacuity of the decidable hypotheses of `commute_succeeds_around_around`: in
     `doc(quote(p("a")), quote(p("b")))` two users re-create the two paragraphs around their content
     (`set_node_markup`-shaped steps `replaceAround 1 4 2 3 <p>` and `replaceAround 6 9 7 8 <p>`); both have the
@@ -1247,6 +1347,18 @@ example :
   · simp [Node.kids, fnorm, fnormKids, Node.norm, chainOk, adjOk]
   · simp [fnorm, fnormKids, Node.norm, chainOk]
   · simp [Node.kids, commuteGuard, insideLeft, depthAt]
+
+/-- non-vacuity of the decidable hypotheses of `commute_succeeds_around_nodeStep_before_partial`: in
+    `doc(quote(p("a")), quote(p("b")))` an attr step on the first paragraph (token 1) against re-creating the second
+    paragraph (`replaceAround 6 9 7 8 <p> 1`): the attr step happens inside the first quote -/
+example :
+    let d : Node := .elem 0 [] [] [.elem 3 [] [] [.elem 1 [] [] [.text [97] []]],
+      .elem 3 [] [] [.elem 1 [] [] [.text [98] []]]]
+    let p : Slice := ⟨[.elem 1 [] [] []], 0, 0⟩
+    NodeStepAt 1 (.attr 1 "k" "v") ∧ AroundShape 6 9 7 8 p 1 ∧ 1 + 1 < 6 ∧
+    commuteGuard d.kids 1 (1 + 1) ⟨[], 0, 0⟩ 6 9 p = true := by
+  refine ⟨.inr (.inr ⟨"k", "v", rfl⟩), by decide, by decide, ?_⟩
+  simp [Node.kids, commuteGuard, insideLeft, depthAt]
 
 /-! ### a step strictly inside the kept gap of a replace-around step: the guard (`gapGuard`, PM/CommuteGuard.lean)
 
